@@ -92,7 +92,16 @@ func runSolver(ctx context.Context, r solverRun) (string, string) {
 	cmd.Stderr = &out
 	_ = cmd.Run()
 	s := out.String()
-	first := strings.TrimSpace(strings.SplitN(s, "\n", 2)[0])
+	first := ""
+	for _, ln := range strings.Split(s, "\n") {
+		ln = strings.TrimSpace(ln)
+		if ln == "" || strings.HasPrefix(ln, "WARNING") {
+			// z3 warns (and goes on) when a pattern cannot be used as a trigger
+			continue
+		}
+		first = ln
+		break
+	}
 	switch first {
 	case "sat", "unsat", "unknown":
 		return first, s
